@@ -100,7 +100,7 @@ def check(ctx):
     ctx.rule("R-C17.2", "lexer: line / file bookkeeping flows only into token positions and error reports; layout paths write only cursor and position state")
     ctx.rule("R-C17.3", "a parenthesised primary expression returns the inner node itself")
     ctx.rule("R-C17.4", "the generator never reads coordinates or positions")
-    ctx.rule("R-C17.6", "an operand and the same operand in redundant parentheses are parsed by the same productions: precedence climbing (R-C02.2) and look-ahead guards that admit every token an expression can start with (R-C01.4)")
+    ctx.rule("R-C17.6", "an operand and the same operand in redundant parentheses are parsed by the same productions: precedence climbing (R-C02.2), the grouping of the conditional / assignment / unary / postfix operators (R-C02.3) and look-ahead guards that admit every token an expression can start with (R-C01.4)")
     ctx.rule("R-C17.5", "redundant parentheses are redundant for the parser too: its binary precedence order is C's (shared with R-C02.1)")
     spec_entries = A.parse_cfg()
 
@@ -266,6 +266,9 @@ def check(ctx):
                           file=px.rel, function=f"CParser.{m_}", line=line)
     from . import share
     share.borrow(ctx, "C02", ("R-C02.2",), "R-C17.6", count=4)
+    # ... and the grouping of the operators that do not go through precedence climbing (conditional, assignment, unary, cast, postfix, comma) must be C's too:
+    # redundant parentheses are placed where C's grammar groups, so a parser that groups otherwise gives `a ? b : c ? d : e` and `a ? b : (c ? d : e)` different trees
+    share.borrow(ctx, "C02", ("R-C02.3",), "R-C17.6", count=20)
     share.borrow(ctx, "C01", ("R-C01.4",), "R-C17.6", count=20)
     t_ = S.tables()
     sp_of = {tt: lit for tt, lit in t_.fixed_tokens}
